@@ -24,7 +24,7 @@ pub fn run(cfg: &RunCfg) -> Ctx {
     if cfg.thorough && cfg.only.is_none() && std::env::var("VERIF_SKIP_4G").is_err() {
         all.merge(seq_cases(cfg, "enc4g", 1, |_, ctx, _| enc_4g(ctx)));
     }
-    for k in ["dec.rel.-1", "dec.rel.0", "dec.rel.1", "enc.rel.-1", "enc.rel.0", "enc.rel.1", "dec.default_limit", "enc.batched_with_oversized", "dec.alloc_measured"] {
+    for k in ["dec.rel.-1", "dec.rel.0", "dec.rel.1", "enc.rel.-1", "enc.rel.0", "enc.rel.1", "dec.default_limit", "enc.batched_with_oversized", "dec.alloc_measured", "huge.limit_above_u32"] {
         all.floor(k, 3);
     }
     all
@@ -61,7 +61,7 @@ fn dec_case(rng: &mut Rng, ctx: &mut Ctx) {
         limit_opt = None;
         ctx.count("dec.default_limit");
     } else if rng.chance(1, 4) {
-        limit_opt = Some(*rng.pick(&[0usize, 1, 4, 5, 100, 4096, 65536]));
+        limit_opt = Some(*rng.pick(&[0usize, 1, 4, 5, 100, 4096, 65536, 1 << 32, (1 << 32) + 16, 1 << 40]));
     } else {
         let tl = frames[target].1.len() as i64;
         limit_opt = Some((tl + rel).max(0) as usize);
@@ -200,9 +200,13 @@ fn huge_case(rng: &mut Rng, ctx: &mut Ctx) {
     let limit_opt = match rng.below(4) {
         0 => None,
         1 => Some(usize::MAX),
-        _ => Some(*rng.pick(&[0usize, 100, 65535, 65536, 1 << 20, (1 << 32) - 2])),
+        // limits above 2^32 are legal too (the length prefix can never exceed them)
+        _ => Some(*rng.pick(&[0usize, 100, 65535, 65536, 1 << 20, (1 << 32) - 2, 1 << 32, (1 << 32) + 16, 1 << 40, usize::MAX - 1])),
     };
     let limit = limit_opt.unwrap_or(4 * 1024 * 1024);
+    if limit > u32::MAX as usize && limit != usize::MAX {
+        ctx.count("huge.limit_above_u32");
+    }
     let declared: u32 = match rng.below(6) {
         0 => u32::MAX,
         1 => 1 << 31,
